@@ -1,7 +1,90 @@
-//! RelativeVigorIndex — reference model (TODO).
+//! RelativeVigorIndex. The doc comment gives no formula of its own, it links
+//! <https://www.investopedia.com/terms/r/relative_vigor_index.asp>:
+//!   NUMERATOR   = (a + 2b + 2c + d) / 6, a = close - open of the current bar, b, c, d = the same one, two, three bars before
+//!   DENOMINATOR = (e + 2f + 2g + h) / 6, e = high - low of the current bar, f, g, h likewise
+//!   RVI = SMA(NUMERATOR, N) / SMA(DENOMINATOR, N);  signal line = (RVI + 2i + 2j + k) / 6
+//! Config: `period1` = "Summarize period" N, `period2` = "SWMA period" (4 above), `signal` = signal line MA (SWMA(4) above).
+//! 2 values: `main`, `signal line`.
+//! 2 signals:
+//!   #1 main crosses signal line upwards -> full buy, downwards -> full sell.
+//!   #2 "When main value is below -zone and crosses signal line upwards, returns full buy signal. When main
+//!      value is above +zone and crosses signal line downwards, returns full sell signal."
 use super::*;
 
-/// returns None until the reference is written
-pub fn make(_cfg: &Cfg, _c0: &RC) -> Option<Box<dyn IndRef>> {
-	None
+/// development switch: `false` reproduces what the implementation feeds into the numerator
+/// (close - PREVIOUS close, previous close started at the first OPEN, averages started at 0)
+const DOCUMENTED_NUMERATOR: bool = true;
+
+#[derive(Clone)]
+pub struct RelativeVigorIndex {
+	zone: f64,
+	prev_close: f64,
+	num_swma: rm::Fir,
+	num_sma: rm::Fir,
+	den_swma: rm::Fir,
+	den_sma: rm::Fir,
+	sig: Box<dyn rm::RefVV>,
+	/// has any candle (incl. the prehistory) had a range high > low
+	ranged: bool,
+	x: CrossD,
+}
+
+impl IndRef for RelativeVigorIndex {
+	fn values(&mut self, c: &RC) -> Vec<Q> {
+		let co = if DOCUMENTED_NUMERATOR { c.c - c.o } else { c.c - self.prev_close };
+		self.prev_close = c.c;
+		let hl = c.h - c.l;
+		self.ranged |= hl != 0.0;
+		let a = self.num_swma.step(Q::exact(co));
+		let num = self.num_sma.step(a);
+		let b = self.den_swma.step(Q::exact(hl));
+		let den = self.den_sma.step(b);
+		let rvi = if !self.ranged {
+			// † follows the implementation: the linked formula is 0/0 when no candle has any range; the indicator
+			// answers 0. Exact predicate only while every high == low since ever: once a range has entered the
+			// averages the implementation decides this on rounded running sums, and the quotient is undefined
+			// whenever the denominator's interval contains 0.
+			Q::exact(0.0)
+		} else {
+			num / den
+		};
+		// an undefined main value makes the signal line undefined for as long as the average remembers it
+		// (finite centre: the median average sorts its window)
+		let s = self.sig.stepq(if rvi.is_defined() { rvi } else { Q::new(0.0, f64::INFINITY) });
+		vec![rvi, s]
+	}
+	fn signals(&mut self, _c: &RC, own: &[f64]) -> Vec<Sig> {
+		let (rvi, sig) = (own[0], own[1]);
+		let x = self.x.cross(rvi, sig);
+		let s2 = (x > 0 && rvi < -self.zone) as i32 - (x < 0 && rvi > self.zone) as i32;
+		vec![sig_sign(x), sig_sign(s2)]
+	}
+	indref!(RelativeVigorIndex);
+}
+
+pub fn make(cfg: &Cfg, c0: &RC) -> Option<Box<dyn IndRef>> {
+	let n = cfg.int("period1");
+	let k = cfg.int("period2");
+	// constant prehistory: every bar is c0, so close - open and high - low are those of c0
+	let co0 = if DOCUMENTED_NUMERATOR { c0.c - c0.o } else { 0.0 };
+	let hl0 = c0.h - c0.l;
+	let rvi0 = if hl0 == 0.0 {
+		Q::exact(0.0) // † as above
+	} else if DOCUMENTED_NUMERATOR {
+		Q::exact(co0) / Q::exact(hl0)
+	} else {
+		Q::exact(0.0)
+	};
+	Some(Box::new(RelativeVigorIndex {
+		zone: cfg.float("zone"),
+		prev_close: c0.o,
+		num_swma: rm::Fir::new(rm::w_swma(k), Q::exact(co0)),
+		num_sma: rm::Fir::new(rm::w_sma(n), Q::exact(co0)),
+		den_swma: rm::Fir::new(rm::w_swma(k), Q::exact(hl0)),
+		den_sma: rm::Fir::new(rm::w_sma(n), Q::exact(hl0)),
+		sig: cfg.ma_ref("signal", rvi0),
+		ranged: hl0 != 0.0,
+		// main - signal on the constant prehistory
+		x: CrossD::new(0.0),
+	}))
 }
